@@ -1,0 +1,66 @@
+//go:build verif
+
+// Contracts for the deductive verifier in /verif (comment-only file; it
+// contributes no code to any build). Syntax: see /verif/DESIGN.md.
+//
+// Property C18: the authorizing decorator reaches its backend only for
+// instance names the responsible authorizer granted; otherwise the caller gets
+// the authorizer's error, the backend is not contacted, and an upload's buffer
+// is released all the same.
+package blobstore
+
+// baCalls(b): number of Get/GetFromComposite/Put/FindMissing calls made on
+// backend b.
+//@ ghost baCalls(ref) int
+//@ iface BlobAccess.Get
+//@   modifies baCalls(self)
+//@   ensures baCalls(self) == old(baCalls(self)) + 1 && result != nil
+//@ iface BlobAccess.GetFromComposite
+//@   modifies baCalls(self)
+//@   ensures baCalls(self) == old(baCalls(self)) + 1 && result != nil
+//@ iface BlobAccess.Put
+//@   modifies baCalls(self)
+//@   ensures baCalls(self) == old(baCalls(self)) + 1
+//@ iface BlobAccess.FindMissing
+//@   modifies baCalls(self)
+//@   ensures baCalls(self) == old(baCalls(self)) + 1
+
+//@ pure abaWF(ba) = ba.BlobAccess != nil && ba.getAuthorizer != nil && ba.putAuthorizer != nil && ba.findMissingAuthorizer != nil
+
+//@ func (*authorizingBlobAccess).Get
+//@   requires abaWF(ba)
+//@   ensures result != nil
+//@   ensures [backend-iff-granted] (avCode(ba.getAuthorizer, dgInst(d.value)) == 0 ==> baCalls(ba.BlobAccess) == old(baCalls(ba.BlobAccess)) + 1)
+//@         && (avCode(ba.getAuthorizer, dgInst(d.value)) != 0 ==> baCalls(ba.BlobAccess) == old(baCalls(ba.BlobAccess)) && typeis(result, "buffer.errorBuffer"))
+//@ func (*authorizingBlobAccess).GetFromComposite
+//@   requires abaWF(ba)
+//@   ensures result != nil
+//@   ensures [backend-iff-granted] (avCode(ba.getAuthorizer, dgInst(parentDigest.value)) == 0 ==> baCalls(ba.BlobAccess) == old(baCalls(ba.BlobAccess)) + 1)
+//@         && (avCode(ba.getAuthorizer, dgInst(parentDigest.value)) != 0 ==> baCalls(ba.BlobAccess) == old(baCalls(ba.BlobAccess)) && typeis(result, "buffer.errorBuffer"))
+// Put: the buffer is a linear resource; on refusal it has to be discarded here
+// (LINEAR obligation), on success it is handed to the backend.
+//@ func (*authorizingBlobAccess).Put
+//@   requires abaWF(ba) && b != nil
+//@   ensures [backend-iff-granted] (avCode(ba.putAuthorizer, dgInst(d.value)) == 0 ==> baCalls(ba.BlobAccess) == old(baCalls(ba.BlobAccess)) + 1)
+//@         && (avCode(ba.putAuthorizer, dgInst(d.value)) != 0 ==> baCalls(ba.BlobAccess) == old(baCalls(ba.BlobAccess)) && result != nil
+//@             && code(result) == avCode(ba.putAuthorizer, dgInst(d.value)))
+
+// FindMissing asks the authorizer about a list of instance names and reaches
+// the backend only if every one of them was granted; the first refusal is
+// returned with the authorizer's code. (That the list contains the instance
+// name of every digest is not decided: it goes through a map.)
+//@ func (*authorizingBlobAccess).FindMissing
+//@   requires abaWF(ba)
+//@   ensures [backend-only-if-all-granted] baCalls(ba.BlobAccess) != old(baCalls(ba.BlobAccess)) ==>
+//@         (forall k :: 0 <= k && k < len(instanceNames) ==> avCode(ba.findMissingAuthorizer, instanceNames[k].value) == 0)
+//@   ensures [refusal-reported] baCalls(ba.BlobAccess) == old(baCalls(ba.BlobAccess)) ==> result1 != nil
+//@         && (exists k :: 0 <= k && k < len(instanceNames) && code(result1) == avCode(ba.findMissingAuthorizer, instanceNames[k].value)
+//@             && avCode(ba.findMissingAuthorizer, instanceNames[k].value) != 0)
+//@   ensures [at-most-one-backend-call] baCalls(ba.BlobAccess) == old(baCalls(ba.BlobAccess)) || baCalls(ba.BlobAccess) == old(baCalls(ba.BlobAccess)) + 1
+//@   loop 0 invariant -1 <= rangeindex && unchanged(baCalls(ba.BlobAccess)) && unchanged(ba.BlobAccess) && unchanged(ba.findMissingAuthorizer)
+//@   loop 1 invariant unchanged(baCalls(ba.BlobAccess)) && unchanged(ba.BlobAccess) && unchanged(ba.findMissingAuthorizer)
+//@   loop 2 invariant unchanged(baCalls(ba.BlobAccess)) && unchanged(ba.BlobAccess) && unchanged(ba.findMissingAuthorizer)
+//@   loop 2 invariant -1 <= rangeindex && len(errs) == len(instanceNames)
+//@   loop 2 invariant forall k :: 0 <= k && k <= rangeindex && k < len(errs) ==> avCode(ba.findMissingAuthorizer, instanceNames[k].value) == 0
+//@   loop 2 invariant forall k :: 0 <= k && k < len(errs) ==> code(errs[k]) == avCode(ba.findMissingAuthorizer, instanceNames[k].value)
+//@         && (errs[k] == nil <==> avCode(ba.findMissingAuthorizer, instanceNames[k].value) == 0)
